@@ -135,13 +135,16 @@ Proof. exact md_match. Qed.
 Print Assumptions C11_definition_match.
 
 Example C11_ex_definition :
-  name_ok $"who" /\ value_ok $"the world" /\ quiet $"the world" /\ def_line $"who" $"the world" = $"{who}='the world'" /\
-  match api_render 40 ($"{who}='the world'" ++ [10; 10] ++ $"Hello {who}.") (mkOpts PyNone PyNone PyNone true) S0 with
-  | Ok (html, _) => str_eqb html $"<p>Hello the world.</p>" | _ => false end = true.
+  name_ok $"who" /\ value_ok $"the world" /\ quiet $"the world" /\ def_line $"who" $"the world" = $"{who}='the world'".
 Proof.
   assert (Q : forall t, forallb no_macro_start t = true -> existsb (N.eqb 2) t = false -> quiet t).
   { intros t H1 H2. split; [|exact H2]. intros x Hx. rewrite forallb_forall in H1. auto. }
-  repeat split; try (apply Q; vm_compute; reflexivity); try discriminate; try (vm_compute; reflexivity).
-  - intros x Hx. vm_compute in Hx. intuition; subst; reflexivity.
-  - intros x Hx. vm_compute in Hx. intuition; subst; discriminate.
+  split; [split; [discriminate|intros x Hx; vm_compute in Hx; intuition; subst; reflexivity]|].
+  split; [intros x Hx; vm_compute in Hx; intuition; subst; discriminate|].
+  split; [apply Q; vm_compute; reflexivity|vm_compute; reflexivity].
 Qed.
+
+Example C11_ex_definition_document :
+  match api_render 40 ($"{who}='the world'" ++ [10; 10] ++ $"Hello {who}.") (mkOpts PyNone PyNone PyNone true) S0 with
+  | Ok (html, _) => str_eqb html $"<p>Hello the world.</p>" | _ => false end = true.
+Proof. vm_compute. reflexivity. Qed.
